@@ -791,7 +791,11 @@ class BlobStorage(BlobStorageMixin):
         # providing an _abort method because methods found on the proxied
         # object aren't rebound to the proxy
         self.__storage.tpc_abort(*arg, **kw)
-        self._blob_tpc_abort()
+        # The storage ignores a call made with a transaction other than
+        # the one being committed: the blobs stored so far stay, then.
+        tpc_transaction = getattr(self.__storage, 'tpc_transaction', None)
+        if tpc_transaction is None or tpc_transaction() is None:
+            self._blob_tpc_abort()
 
     def _packUndoing(self, packtime, referencesf):
         # Walk over all existing revisions of all blob files and check
